@@ -1231,8 +1231,10 @@ class C09(Check):
         return {"model_answers_unmodelled": dict(self.unmodelled),
                 "cases_without_model_request": dict(self.no_request),
                 "unmodelled_rule": "a model answer 'unmodelled' (C08 cast boundary) is accepted only where the "
-                                   "implementation raised too, or for cast-type reads of foreign stale files left by a "
-                                   "write_database that an unknown relation name aborted; anywhere else it is a disagreement"}
+                                   "implementation raised too, for cast-type reads of foreign stale files left by a "
+                                   "write_database that an unknown relation name aborted, or for cast-type reads after an "
+                                   "in-place write_database under a new schema that names a relation twice (columns of one "
+                                   "datatype then hold text of another); anywhere else it is a disagreement"}
 
     def setup(self):
         self.unmodelled = {}
@@ -1592,11 +1594,19 @@ class C09(Check):
             # raised as well, or in the documented class: cast-type reads of foreign stale files that a
             # write_database aborted by an unknown relation name left behind.
             aborted = case["kind"] == "db" and isinstance(expected, dict) and expected.get("res") != "ok"
+            # third documented class: an in-place write_database under a new schema that names a relation twice
+            # remakes, on the second pass, the file the first pass rewrote (old field list on new lines), so text of
+            # one column lands in a column of another datatype (e.g. 'False' in a :date column); files, raw reads and
+            # tsdb.open are still compared exactly, only the cast-type reads hit the C08 cast boundary there
+            nm = case.get("names") if case["kind"] == "db" else None
+            repeated = (case["kind"] == "db" and case["dst"] == "inplace" and case["schema"] is not None
+                        and nm is not None and len({tuple(x) for x in nm}) < len(nm))
             for h in hits:
                 impl_err = isinstance(h, dict) and "err" in h
-                key = ("impl_error" if impl_err else "impl_ok_aborted_db" if aborted else "impl_ok")
+                key = ("impl_error" if impl_err else "impl_ok_aborted_db" if aborted
+                       else "impl_ok_repeated_names_inplace" if repeated else "impl_ok")
                 self.unmodelled[key] = self.unmodelled.get(key, 0) + 1
-                if not impl_err and not aborted:
+                if not impl_err and not aborted and not repeated:
                     return {"unmodelled_where_implementation_succeeded": h, "model": answer}
             return None
         if isinstance(expected, list) and isinstance(answer, list) and len(expected) == len(answer):
